@@ -589,6 +589,7 @@ func runOci(mode string, seed int64, tier string, sc *Script) map[string]any {
 					sc.Op("ok", "o view")
 					queries("o vq ", s2)
 				case 2:
+					tarAppended = rng.Intn(2) == 0
 					if err := tarDir(dir, dir+".tar"); err != nil {
 						panic(err)
 					}
